@@ -79,7 +79,7 @@ ASSUMPTIONS = [
     "for an inexact quotient fp.div(RNE, to_fp(l), to_fp(r)) under the additional path constraint |l|, |r| <= 2**53 (where that IS the correctly rounded quotient); "
     "int(float) as fp.to_sbv(RTZ); Fraction(a, b) as the exact rational a/b; isinstance(value, int) by the proxy's class. The real walk_div source is executed "
     "(not re-written): a repaired walk_div that uses // or Fraction never creates a float proxy and the obligation is pure integer arithmetic. "
-    "Module-level names `int`, `float`, `Fraction` of unified_planning.model.walkers.simplifier are bound to proxy-aware constructors during the unit-level run only; "
+    "The proxy numbers live in vf/e3.py. Module-level names `int`, `float`, `Fraction` of unified_planning.model.walkers.simplifier are bound to proxy-aware constructors during the unit-level run only; "
     "the engine is validated first against the real Simplifier on fixed operand pairs (selftest shard); every model is replayed on the real Simplifier",
 ]
 
@@ -680,453 +680,8 @@ def h_simplify(ctx, pool, root, max_nodes, max_depth, forced=None, problem=False
 
 
 # =============================================================================================
-# layer 2: E3 -- IEEE-754-exact proxy execution of Simplifier.walk_div at unit level
-I64 = (-(2 ** 63), 2 ** 63 - 1)
-
-
-class _Engine:
-    """per-path state of the proxy run: path condition (z3), decisions taken through ctx.choice (the choice-only driver
-    re-executes the harness for every decision vector = DFS over the branches of the real function)"""
-
-    def __init__(self, ctx, timeout_ms=60000):
-        import z3
-
-        self.z3 = z3
-        self.ctx = ctx
-        self.pc = []
-        self.nd = 0
-        self.timeout_ms = timeout_ms
-        self.notes = []
-        self.fresh = 0
-        self.F64 = z3.Float64()
-        self.used_float = False
-
-    def feasible(self, extra):
-        s = self.z3.Solver()
-        s.set("timeout", self.timeout_ms)
-        s.add(self.pc)
-        s.add(extra)
-        return s.check() != self.z3.unsat  # unknown counts as feasible (the final query decides)
-
-    def assume(self, cond, why):
-        self.pc.append(cond)
-        self.notes.append(why)
-
-    def decide(self, cond):
-        z3 = self.z3
-        c = z3.simplify(cond)
-        if z3.is_true(c):
-            return True
-        if z3.is_false(c):
-            return False
-        can_t, can_f = self.feasible(c), self.feasible(z3.Not(c))
-        if can_t and can_f:
-            take = self.ctx.choice(f"d{self.nd}", 2) == 0
-            self.nd += 1
-        elif can_t or can_f:
-            take = can_t
-        else:
-            self.ctx.assume(False)
-        self.pc.append(c if take else z3.Not(c))
-        return take
-
-    # -- conversions
-    def int_to_fp(self, t):
-        """correctly rounded binary64 of the (mathematical) integer t, |t| < 2**69"""
-        z3 = self.z3
-        self.used_float = True
-        b = z3.BitVec(f"e3_bv{self.fresh}", 70)
-        self.fresh += 1
-        self.pc.append(z3.BV2Int(b, True) == t)
-        return z3.fpSignedToFP(z3.RNE(), b, self.F64)
-
-    def fp_to_int(self, f):
-        """int(float): truncation toward zero; OverflowError / ValueError on inf / nan as python raises them"""
-        z3 = self.z3
-        if self.decide(z3.fpIsInf(f)):
-            raise OverflowError("cannot convert float infinity to integer")
-        if self.decide(z3.fpIsNaN(f)):
-            raise ValueError("cannot convert float NaN to integer")
-        self.assume(z3.fpLEQ(z3.fpAbs(f), z3.FPVal(2.0 ** 100, self.F64)), "int(float) modelled for |float| <= 2**100")
-        return SInt(self, z3.BV2Int(z3.fpToSBV(z3.RTZ(), f, z3.BitVecSort(128)), True))
-
-
-def _zint(eng, x):
-    if isinstance(x, SInt):
-        return x.t
-    if isinstance(x, bool) or not isinstance(x, int):
-        raise TypeError(f"E3: int operand expected, got {type(x).__name__}")
-    return eng.z3.IntVal(x)
-
-
-def _zreal(eng, x):
-    z3 = eng.z3
-    if isinstance(x, SFrac):
-        return x.q
-    if isinstance(x, SInt):
-        return z3.ToReal(x.t)
-    if isinstance(x, Fraction):
-        return z3.RealVal(str(x))
-    if isinstance(x, int) and not isinstance(x, bool):
-        return z3.RealVal(x)
-    raise TypeError(f"E3: rational operand expected, got {type(x).__name__}")
-
-
-class SBool:
-    def __init__(self, eng, t):
-        self.eng, self.t = eng, t
-
-    def __bool__(self):
-        return self.eng.decide(self.t)
-
-    def __invert__(self):
-        return SBool(self.eng, self.eng.z3.Not(self.t))
-
-
-def _cmp(name, op):
-    def f(self, o):
-        try:
-            a, b = self._pair(o)
-        except TypeError:
-            return NotImplemented
-        return SBool(self.eng, op(a, b))
-    f.__name__ = name
-    return f
-
-
-class SInt:
-    """a python int of unknown value: z3 Int term"""
-
-    def __init__(self, eng, t):
-        self.eng, self.t = eng, t
-
-    def _pair(self, o):
-        if isinstance(o, (SFrac, Fraction)):
-            return _zreal(self.eng, self), _zreal(self.eng, o)
-        if isinstance(o, SFloat) or isinstance(o, float):
-            raise TypeError("E3: int/float comparison is not modelled")
-        return self.t, _zint(self.eng, o)
-
-    __eq__ = _cmp("__eq__", lambda a, b: a == b)
-    __ne__ = _cmp("__ne__", lambda a, b: a != b)
-    __lt__ = _cmp("__lt__", lambda a, b: a < b)
-    __le__ = _cmp("__le__", lambda a, b: a <= b)
-    __gt__ = _cmp("__gt__", lambda a, b: a > b)
-    __ge__ = _cmp("__ge__", lambda a, b: a >= b)
-    __hash__ = None
-
-    def __bool__(self):
-        return self.eng.decide(self.t != 0)
-
-    def _arith(self, o, f, swap=False):
-        if isinstance(o, (SFrac, Fraction)):
-            a, b = _zreal(self.eng, self), _zreal(self.eng, o)
-            return SFrac(self.eng, f(b, a) if swap else f(a, b))
-        if isinstance(o, (SFloat, float)):
-            return NotImplemented
-        a, b = self.t, _zint(self.eng, o)
-        return SInt(self.eng, f(b, a) if swap else f(a, b))
-
-    def __add__(self, o):
-        return self._arith(o, lambda a, b: a + b)
-
-    __radd__ = __add__
-
-    def __sub__(self, o):
-        return self._arith(o, lambda a, b: a - b)
-
-    def __rsub__(self, o):
-        return self._arith(o, lambda a, b: a - b, swap=True)
-
-    def __mul__(self, o):
-        return self._arith(o, lambda a, b: a * b)
-
-    __rmul__ = __mul__
-
-    def __neg__(self):
-        return SInt(self.eng, -self.t)
-
-    def __pos__(self):
-        return self
-
-    def __abs__(self):
-        return SInt(self.eng, self.eng.z3.If(self.t >= 0, self.t, -self.t))
-
-    # floor division / modulo with python semantics (sign of the divisor), ZeroDivisionError as python raises it
-    def _divmod(self, a, b):
-        z3 = self.eng.z3
-        if self.eng.decide(b == 0):
-            raise ZeroDivisionError("integer division or modulo by zero")
-        q = z3.If(b > 0, a / b, (-a) / (-b))  # z3 `/` on Int is div: floor for a positive divisor
-        return q, a - b * q
-
-    def __floordiv__(self, o):
-        if isinstance(o, (SFrac, Fraction, SFloat, float)):
-            return NotImplemented
-        return SInt(self.eng, self._divmod(self.t, _zint(self.eng, o))[0])
-
-    def __rfloordiv__(self, o):
-        return SInt(self.eng, self._divmod(_zint(self.eng, o), self.t)[0])
-
-    def __mod__(self, o):
-        if isinstance(o, (SFrac, Fraction, SFloat, float)):
-            return NotImplemented
-        return SInt(self.eng, self._divmod(self.t, _zint(self.eng, o))[1])
-
-    def __rmod__(self, o):
-        return SInt(self.eng, self._divmod(_zint(self.eng, o), self.t)[1])
-
-    def __divmod__(self, o):
-        q, r = self._divmod(self.t, _zint(self.eng, o))
-        return SInt(self.eng, q), SInt(self.eng, r)
-
-    def _truediv(self, a, b):
-        """int / int: the correctly rounded binary64 quotient (CPython long_true_divide)"""
-        eng, z3 = self.eng, self.eng.z3
-        if eng.decide(b == 0):
-            raise ZeroDivisionError("division by zero")
-        q = z3.If(b > 0, a / b, (-a) / (-b))
-        if eng.decide(a - b * q == 0):  # exact quotient: the nearest double of the integer q
-            eng.assume(z3.And(q > -(2 ** 69), q < 2 ** 69), "int -> float modelled for |int| < 2**69")
-            return SFloat(eng, eng.int_to_fp(q))
-        lim = 2 ** 53
-        eng.assume(z3.And(a >= -lim, a <= lim, b >= -lim, b <= lim),
-                   "inexact int / int modelled only for |operands| <= 2**53 (fl(a)/fl(b) is then the correctly rounded quotient)")
-        return SFloat(eng, z3.fpDiv(z3.RNE(), eng.int_to_fp(a), eng.int_to_fp(b)))
-
-    def __truediv__(self, o):
-        if isinstance(o, (SFrac, Fraction)):
-            return SFrac.make(self.eng, self, o)
-        if isinstance(o, (SFloat, float)):
-            return NotImplemented
-        return self._truediv(self.t, _zint(self.eng, o))
-
-    def __rtruediv__(self, o):
-        if isinstance(o, Fraction):
-            return SFrac.make(self.eng, o, self)
-        return self._truediv(_zint(self.eng, o), self.t)
-
-    def __repr__(self):
-        return f"SInt({self.t})"
-
-
-class SFloat:
-    """a python float of unknown value: z3 FloatingPoint(11, 53) term"""
-
-    def __init__(self, eng, f):
-        self.eng, self.f = eng, f
-
-    def _other(self, o):
-        z3 = self.eng.z3
-        if isinstance(o, SFloat):
-            return o.f
-        if isinstance(o, float):
-            return z3.FPVal(o, self.eng.F64)
-        if isinstance(o, SInt):
-            self.eng.assume(z3.And(o.t > -(2 ** 69), o.t < 2 ** 69), "int -> float modelled for |int| < 2**69")
-            return self.eng.int_to_fp(o.t)
-        if isinstance(o, int) and not isinstance(o, bool):
-            return z3.FPVal(float(o), self.eng.F64) if abs(o) <= 2 ** 53 else self.eng.int_to_fp(z3.IntVal(o))
-        raise TypeError("E3: float operand expected")
-
-    def _bin(self, o, op, swap=False):
-        z3 = self.eng.z3
-        try:
-            g = self._other(o)
-        except TypeError:
-            return NotImplemented
-        a, b = (g, self.f) if swap else (self.f, g)
-        return SFloat(self.eng, op(z3.RNE(), a, b))
-
-    def __add__(self, o):
-        return self._bin(o, self.eng.z3.fpAdd)
-
-    __radd__ = __add__
-
-    def __sub__(self, o):
-        return self._bin(o, self.eng.z3.fpSub)
-
-    def __rsub__(self, o):
-        return self._bin(o, self.eng.z3.fpSub, swap=True)
-
-    def __mul__(self, o):
-        return self._bin(o, self.eng.z3.fpMul)
-
-    __rmul__ = __mul__
-
-    def __truediv__(self, o):
-        g = self._other(o)
-        if self.eng.decide(self.eng.z3.fpIsZero(g)):
-            raise ZeroDivisionError("float division by zero")
-        return SFloat(self.eng, self.eng.z3.fpDiv(self.eng.z3.RNE(), self.f, g))
-
-    def __neg__(self):
-        return SFloat(self.eng, self.eng.z3.fpNeg(self.f))
-
-    def _c(self, o, op):
-        try:
-            return SBool(self.eng, op(self.f, self._other(o)))
-        except TypeError:
-            return NotImplemented
-
-    def __eq__(self, o):
-        return self._c(o, self.eng.z3.fpEQ)
-
-    def __ne__(self, o):
-        r = self._c(o, self.eng.z3.fpEQ)
-        return r if r is NotImplemented else ~r
-
-    def __lt__(self, o):
-        return self._c(o, self.eng.z3.fpLT)
-
-    def __le__(self, o):
-        return self._c(o, self.eng.z3.fpLEQ)
-
-    def __gt__(self, o):
-        return self._c(o, self.eng.z3.fpGT)
-
-    def __ge__(self, o):
-        return self._c(o, self.eng.z3.fpGEQ)
-
-    __hash__ = None
-
-    def is_integer(self):
-        z3 = self.eng.z3
-        return bool(SBool(self.eng, z3.fpEQ(z3.fpRoundToIntegral(z3.RTZ(), self.f), self.f)))
-
-    def __repr__(self):
-        return f"SFloat({self.f})"
-
-
-class SFrac:
-    """a fractions.Fraction of unknown value: z3 Real term (exact rational)"""
-
-    def __init__(self, eng, q):
-        self.eng, self.q = eng, q
-
-    @staticmethod
-    def make(eng, num, den):
-        z3 = eng.z3
-        d = _zreal(eng, den)
-        if eng.decide(d == 0):
-            raise ZeroDivisionError("Fraction(%s, 0)" % (num,))
-        return SFrac(eng, _zreal(eng, num) / d)
-
-    def _pair(self, o):
-        return self.q, _zreal(self.eng, o)
-
-    __eq__ = _cmp("__eq__", lambda a, b: a == b)
-    __ne__ = _cmp("__ne__", lambda a, b: a != b)
-    __lt__ = _cmp("__lt__", lambda a, b: a < b)
-    __le__ = _cmp("__le__", lambda a, b: a <= b)
-    __gt__ = _cmp("__gt__", lambda a, b: a > b)
-    __ge__ = _cmp("__ge__", lambda a, b: a >= b)
-    __hash__ = None
-
-    def _arith(self, o, f, swap=False):
-        try:
-            b = _zreal(self.eng, o)
-        except TypeError:
-            return NotImplemented
-        return SFrac(self.eng, f(b, self.q) if swap else f(self.q, b))
-
-    def __add__(self, o):
-        return self._arith(o, lambda a, b: a + b)
-
-    __radd__ = __add__
-
-    def __sub__(self, o):
-        return self._arith(o, lambda a, b: a - b)
-
-    def __rsub__(self, o):
-        return self._arith(o, lambda a, b: a - b, swap=True)
-
-    def __mul__(self, o):
-        return self._arith(o, lambda a, b: a * b)
-
-    __rmul__ = __mul__
-
-    def __truediv__(self, o):
-        return SFrac.make(self.eng, self, o)
-
-    def __rtruediv__(self, o):
-        return SFrac.make(self.eng, o, self)
-
-    def __neg__(self):
-        return SFrac(self.eng, -self.q)
-
-    def __repr__(self):
-        return f"SFrac({self.q})"
-
-
-def _proxies(eng):
-    """proxy-aware `int`, `float`, `Fraction` for the simplifier module's namespace"""
-    import builtins
-
-    z3 = eng.z3
-
-    class _IntMeta(type):
-        def __instancecheck__(cls, x):
-            return isinstance(x, SInt) or builtins.isinstance(x, builtins.int)
-
-        def __call__(cls, x=0, *a):
-            if isinstance(x, SInt):
-                return x
-            if isinstance(x, SFloat):
-                return eng.fp_to_int(x.f)
-            if isinstance(x, SFrac):
-                from vf.ctx import HarnessError
-
-                raise HarnessError("E3: int(Fraction proxy) is not modelled")
-            return builtins.int(x, *a)
-
-    class pint(metaclass=_IntMeta):
-        pass
-
-    class _FloatMeta(type):
-        def __instancecheck__(cls, x):
-            return isinstance(x, SFloat) or builtins.isinstance(x, builtins.float)
-
-        def __call__(cls, x=0.0):
-            if isinstance(x, SFloat):
-                return x
-            if isinstance(x, SInt):
-                eng.assume(z3.And(x.t > -(2 ** 69), x.t < 2 ** 69), "int -> float modelled for |int| < 2**69")
-                return SFloat(eng, eng.int_to_fp(x.t))
-            if isinstance(x, SFrac):
-                from vf.ctx import HarnessError
-
-                raise HarnessError("E3: float(Fraction proxy) is not modelled")
-            return builtins.float(x)
-
-    class pfloat(metaclass=_FloatMeta):
-        pass
-
-    class _FracMeta(type):
-        def __instancecheck__(cls, x):
-            return isinstance(x, SFrac) or builtins.isinstance(x, Fraction)
-
-        def __call__(cls, num=0, den=None):
-            if den is None:
-                if isinstance(num, SFrac):
-                    return num
-                if isinstance(num, SInt):
-                    return SFrac(eng, z3.ToReal(num.t))
-                if isinstance(num, SFloat):  # Fraction(float) is exact
-                    if eng.decide(z3.Or(z3.fpIsInf(num.f), z3.fpIsNaN(num.f))):
-                        raise OverflowError("cannot convert Infinity/NaN to integer ratio")
-                    return SFrac(eng, z3.fpToReal(num.f))
-                return Fraction(num)
-            if any(isinstance(v, (SInt, SFrac)) for v in (num, den)):
-                return SFrac.make(eng, num, den)
-            if any(isinstance(v, SFloat) for v in (num, den)):
-                raise TypeError("both arguments should be Rational instances")
-            return Fraction(num, den)
-
-    class pFraction(metaclass=_FracMeta):
-        pass
-
-    return pint, pfloat, pFraction
+# layer 2: E3 -- IEEE-754-exact proxy execution of Simplifier.walk_div at unit level (proxy numbers: vf/e3.py)
+from vf.e3 import I64, Engine as _Engine, SFloat, SFrac, SInt, proxies as _proxies, zreal as _zreal  # noqa: E402
 
 
 class _StubConst:
@@ -1358,7 +913,7 @@ BOOLOPS = ["not", "and", "or", "implies", "iff"]
 
 def layer1(tier):
     q = tier == "quick"
-    bud = 120 if q else 900
+    bud = 150 if q else 900
     out = []
     # -- symbolic constants (symex) --
     # Boolean structure over a fluent and constant-only atoms that fold on solver-chosen sides (k1<=k2, k2<k1 complementary)
@@ -1416,7 +971,7 @@ def layer1(tier):
 def layer3(tier):
     """exists x. (x = t and phi): the shape rewritten by Simplifier.walk_exists"""
     q = tier == "quick"
-    bud = 120 if q else 900
+    bud = 150 if q else 900
     out = []
     EQ = ["x==o1", "o1==x", "x==z", "x==y", "x==w(x)", "w(x)==x", "x==w(o1)", "x==o2"]
     PHI = ["p(x)", "p(o1)", "q(x,z)", "b", "not", "or", "and"]
